@@ -589,17 +589,24 @@ func cmdCheck(args []string) {
 	}
 	sort.Slice(reported, func(i, j int) bool { return reported[i].Run < reported[j].Run })
 	var confirmed []foundViolation
+	var unconfirmed []foundViolation
 	for _, v := range reported {
 		ok, outText := replayFile(bi.Bin, v.Replay)
 		if !ok {
-			// the shrunk file did not reproduce in a fresh process: that is a determinism problem of the
-			// machinery, not a verdict about the code
-			fmt.Fprintf(os.Stderr, "replay of %s did not reproduce rule %s:\n%s\n", v.Replay, v.Rule, tail(outText, 2000))
-			die(2, "a violation of %s was found but its replay file does not reproduce it; no verdict", prop)
+			// try once more: the replay itself runs in a fresh process and must be deterministic
+			ok, outText = replayFile(bi.Bin, v.Replay)
+		}
+		if !ok {
+			// A violation whose replay file does not reproduce it cannot be reported (and says more about the
+			// machinery than about the code): it is counted, shown, and the next reported one is tried.
+			fmt.Fprintf(os.Stderr, "UNCONFIRMED: replay of %s did not reproduce rule %s:\n%s\n", v.Replay, v.Rule, tail(outText, 1500))
+			unconfirmed = append(unconfirmed, v)
+			continue
 		}
 		confirmed = append(confirmed, v)
 		break // one is enough; report the first
 	}
+	agg.Unconfirmed = len(unconfirmed)
 	for _, k := range known {
 		if k.Property == prop && k.Status == "known" {
 			n := agg.Known[k.Signature]
@@ -682,6 +689,7 @@ type aggT struct {
 	Samples                                []json.RawMessage
 	Probes                                 []uint64
 	RaceReports                            []json.RawMessage
+	Unconfirmed                            int
 	Retries                                int
 	RetryNotes                             []string
 }
@@ -816,6 +824,7 @@ func writeEvidence(prop, tier, level string, seed int64, a *aggT, wall, buildS f
 		"inconclusive_step_cap":         a.StepCap,
 		"known_findings_observed":       a.Known,
 		"batches_skipped_by_wall_cap":   skipped,
+		"violations_not_reproduced_by_replay": a.Unconfirmed,
 		"worker_batches_re_executed":    a.Retries,
 		"worker_failures_before_retry":  a.RetryNotes,
 		"workers":                       workers,
